@@ -41,7 +41,6 @@ ASSUMPTIONS = ["CPython random.randrange / random.choice / random.choices (bisec
                "Python int arithmetic = Z arithmetic; local time zone = UTC"]
 EXHAUSTIVE = {"quick": False, "thorough": False}
 
-F_NAIVE = "C11-K13-timezone-false-rejected"
 
 
 # ------------------------------------------------------------------------------------------------
@@ -508,14 +507,8 @@ def violation_class(case, obs, msg):
 
 
 def match_finding(case, obs, msg, findings):
-    """Only the exact input class of the recorded defect: datetime_between with `timezone: False` over a
-    valid range raises (naive Faker result compared with aware bounds).  Anything else is a violation."""
-    ids = {f["id"] for f in findings}
-    if msg == "model-disagreement" or F_NAIVE not in ids:
-        return None
-    if case["kind"] == "datetime" and case.get("tz") == "false" and "err" in obs \
-            and msg.startswith("datetime: rejected"):
-        return F_NAIVE
+    """No open finding for C11: every oracle failure is a violation.  (K4, K10, K11, K12, K13 were
+    repaired in /repo; their witnesses stay in corpus/C11 as regression cases.)"""
     return None
 
 
